@@ -18,6 +18,14 @@ pub fn stream(rng: &mut Rng, len: usize, class: &str) -> Vec<f64> {
 				v.push(base + rng.range(0, k - 1) as f64);
 			}
 		}
+		// magnitudes next to the overflow threshold (cross-build runs only)
+		"huge" => {
+			let ks = [4.0e307, 9.0e307, 1.2e308, 1.7e308];
+			for _ in 0..len {
+				let k = *rng.pick(&ks);
+				v.push(if rng.chance(1, 3) { -k } else { k } * (0.5 + 0.5 * rng.unit()));
+			}
+		}
 		// signed zeros and small negatives/positives
 		"zeros" => {
 			let alpha = [0.0, -0.0, 1.0, -1.0, 0.0, -0.0, 2.0];
